@@ -108,6 +108,29 @@ Definition unnormalised (r : lexrule) : bool :=
 Definition check_synonyms (opmap : list (string * string)) : bool :=
   forallb (fun r => negb (unnormalised r) || same_image opmap (lr_alts r)) rules.
 
+(* 5b. every spelling of an emitted literal rule, lexed on its own, yields
+   exactly one token: of the rule's type, with the normalised value if the
+   rule normalises and the spelling itself otherwise (no spelling is
+   shadowed by an earlier rule of the master regex) *)
+Definition tokens_eqb (a b : list token) : bool :=
+  match a, b with
+  | [x], [y] => token_eqb x y
+  | _, _ => false
+  end.
+Definition check_alts_lex : bool :=
+  forallb (fun r =>
+    match lr_kind r with
+    | RLit =>
+        negb (lr_emit r) ||
+        forallb (fun a =>
+          match lex rules reserved values ignore a with
+          | Some ts => tokens_eqb ts [Tok (lr_type r)
+                          (match lr_norm r with Some v => v | None => a end)]
+          | None => false
+          end) (lr_alts r)
+    | _ => true
+    end) rules.
+
 (* 6. no token type is both a prefix and an infix/postfix level mate:
    levels used by prefix operators are disjoint from levels used by infix
    and postfix operators (so "equal level" never arises between them) *)
